@@ -10,6 +10,7 @@ Local Open Scope num_scope.
 Inductive cond :=
 | CIsOp            (* isinstance(other, Operator) *)
 | CIsNumber        (* isinstance(other, Number) *)
+| CIsReal          (* isinstance(other, Real) *)
 | CIsVec           (* isinstance(other, LinearSpaceElement) *)
 | CIsFunctional    (* isinstance(other, Functional) *)
 | CIsIntegral      (* isinstance(n, Integral) *)
@@ -43,29 +44,31 @@ Variable vt : variant.
 Notation vec := (list T).
 
 (* the right operand of an overload *)
-Inductive operand := POp (o : oexpr T) | PScal (c : T) | PVec (v : vec) | PInt (n : Z).
+(* PScal c rl: a scalar literal; rl = isinstance(c, numbers.Real) (its Python type) *)
+Inductive operand := POp (o : oexpr T) | PScal (c : T) (rl : bool) | PVec (v : vec) | PInt (n : Z).
 
 Fixpoint ceval (c : cond) (self : oexpr T) (other : operand) : bool :=
   match c with
   | CIsOp => match other with POp _ => true | _ => false end
-  | CIsNumber => match other with PScal _ | PInt _ => true | _ => false end
+  | CIsNumber => match other with PScal _ _ | PInt _ => true | _ => false end
+  | CIsReal => match other with PScal _ rl => rl | PInt _ => true | _ => false end
   | CIsVec => match other with PVec _ => true | _ => false end
   | CIsFunctional => match other with POp b => ofunc b | _ => false end
   | CIsIntegral => match other with PInt _ => true | _ => false end
   | CPositive => match other with PInt n => (0 <? n)%Z | _ => false end
   | CInRange => match other with
                 | PVec v => in_sp v (oran self)
-                | PScal _ => sp_eqb (oran self) SF       (* a scalar is an element of a field range *)
+                | PScal _ _ => sp_eqb (oran self) SF     (* a scalar is an element of a field range *)
                 | _ => false
                 end
-  | CInRangeField | CInDomainField => match other with PScal _ => true | _ => false end
+  | CInRangeField | CInDomainField => match other with PScal _ _ => true | _ => false end
   | CInDomain => match other with
                  | PVec v => in_sp v (odom self)
-                 | PScal _ => sp_eqb (odom self) SF
+                 | PScal _ _ => sp_eqb (odom self) SF
                  | _ => false
                  end
   | CFieldIsRange => match other with PVec _ => sp_eqb (oran self) SF | _ => false end
-  | CEqZero => match other with PScal c => c =? nzero | _ => false end
+  | CEqZero => match other with PScal c _ => c =? nzero | _ => false end
   | CSelfLinear => olin vt self
   | CAnd a b => ceval a self other && ceval b self other
   end.
@@ -85,46 +88,46 @@ Definition do_act (k : callbacks) (a : act) (self : oexpr T) (other : operand) :
   | ANotImpl, _ => Err TypeErr
   (* OperatorVectorSum(self, other) *)
   | AVecSum, PVec v => mkVecSum self v
-  | AVecSum, PScal c => match oran self with
+  | AVecSum, PScal c _ => match oran self with
                         | SF => if v_vecsum_field vt then Ok (OVecSum self [c]) else Err TypeErr
                         | SV _ => Err TypeErr
                         end
   (* constant_vector = other * self.range.one(); OperatorVectorSum(self, constant_vector) *)
-  | AVecSumConst, PScal c => match oran self with
+  | AVecSumConst, PScal c _ => match oran self with
                              | SV n => Ok (OVecSum self (vscal c (vone n)))
                              | SF => Err TypeErr
                              end
   | AOpSum, POp b => mkSum false self b
   | ASelfPlusOther, _ => cb_add k self other
-  | ASelfPlusNegOther, POp b => bind (cb_rmul k b (PScal neg1)) (fun nb => cb_add k self (POp nb))
+  | ASelfPlusNegOther, POp b => bind (cb_rmul k b (PScal neg1 true)) (fun nb => cb_add k self (POp nb))
   | ASelfPlusNegOther, PVec v => cb_add k self (PVec (vscal neg1 v))
-  | ASelfPlusNegOther, PScal c => cb_add k self (PScal (neg1 * c))
-  | ANegSelfPlusOther, _ => bind (cb_rmul k self (PScal neg1)) (fun na => cb_add k na other)
+  | ASelfPlusNegOther, PScal c _ => cb_add k self (PScal (neg1 * c) true)
+  | ANegSelfPlusOther, _ => bind (cb_rmul k self (PScal neg1 true)) (fun na => cb_add k na other)
   | ACompSelfOther, POp b => mkComp false self b
   | AOtherTimesSelf, _ => cb_rmul k self other
-  | ARScal, PScal c => mkRScal false self c
+  | ARScal, PScal c _ => mkRScal false self c
   | ARVecCopy, PVec v => if in_sp v (odom self) then Ok (ORVec false self v) else Err TypeErr
   | ASelfMul, _ => cb_mul k self other
   | ACompOtherSelf, POp b => mkComp false b self
-  | ALScal, PScal c => mkLScal false self c
+  | ALScal, PScal c _ => mkLScal false self c
   | ALVecCopy, PVec v => if in_sp v (oran self) then Ok (OLVec self v) else Err TypeErr
   | AFLVecCopy, PVec v => match oran self with SF => Ok (OFLVec self v) | SV _ => Err TypeErr end
   | ASelfRmul, _ => cb_rmul k self other
   | APowLoop, PInt n => pow_loop (Z.to_nat n - 1) self self
-  | ASelfTimesInv, PScal c => if c =? nzero then Err ZeroDivErr else cb_mul k self (PScal (none_ / c))
-  | ANegOneTimesSelf, _ => cb_rmul k self (PScal neg1)
-  | ARScalMerge, PScal c => match self with
+  | ASelfTimesInv, PScal c rl => if c =? nzero then Err ZeroDivErr else cb_mul k self (PScal (none_ / c) rl)
+  | ANegOneTimesSelf, _ => cb_rmul k self (PScal neg1 true)
+  | ARScalMerge, PScal c _ => match self with
                             | ORScal _ a' c' => mkRScal false a' (c' * c)
                             | _ => Err TypeErr
                             end
   | ASuperMul, _ | ASuperRmul, _ | ASuperAdd, _ => cb_super k self other
   | AFComp, POp b => mkFComp self b
   | AConstAtZero, _ => Ok (OConst (odom self) (scalar_of (eval self (vzero (dim (odom self))))))
-  | AFLScal, PScal c => mkFLScal self c
-  | AFRScal, PScal c => mkFRScal self c
+  | AFLScal, PScal c _ => mkFLScal self c
+  | AFRScal, PScal c _ => mkFRScal self c
   | AFRVec, PVec v => if in_sp v (odom self) then Ok (ORVec true self v) else Err TypeErr
   | AZeroF, _ => Ok (OZero (odom self))
-  | AFScalSum, PScal c => Ok (OScalSum self c)
+  | AFScalSum, PScal c _ => Ok (OScalSum self c)
   | AFSum, POp b => mkFSum self b
   | _, _ => Err TypeErr
   end.
@@ -133,6 +136,14 @@ Fixpoint run (k : callbacks) (t : dtree) (self : oexpr T) (other : operand) : re
   match t with
   | DIf c a b => if ceval c self other then run k a self other else run k b self other
   | DAct a => do_act k a self other
+  end.
+
+Fixpoint cond_mentions_real (c : cond) : bool :=
+  match c with CIsReal => true | CAnd a b => cond_mentions_real a || cond_mentions_real b | _ => false end.
+Fixpoint tree_mentions_real (t : dtree) : bool :=
+  match t with
+  | DIf c a b => cond_mentions_real c || tree_mentions_real a || tree_mentions_real b
+  | DAct _ => false
   end.
 
 (* a leaf that is a Functional resolves like Functional, any other leaf like Operator *)
